@@ -160,6 +160,7 @@ class Check:
         Returns one dict per trace: {reached, len, accepted, ...extra fields printed by Post}."""
         if not traces:
             return []
+        self._last_validation = {"module": module, "constants": constants}
         chunks = [traces[i:i + chunk] for i in range(0, len(traces), chunk)]
         cfgp = os.path.join(self.wd, f"{module}-{label or 't'}-{time.time_ns()}.cfg")
         tlc.write_cfg(cfgp, init="TInit", next_="TNext", constants=constants, constraints=["Record"],
@@ -236,7 +237,9 @@ class Check:
                 msg = f"step {k} of {len(tr)} not admitted by the specification"
                 if r.get(why_key):
                     msg += f" (failing clauses: {r[why_key]})"
-                self.violation(msg, {"trace": tr, "failing_index": k, "event": ev, "verdict": r})
+                self.violation(msg, {"trace": tr, "failing_index": k, "event": ev, "verdict": r,
+                                     "trace_module": getattr(self, "_last_validation", {}).get("module"),
+                                     "constants": getattr(self, "_last_validation", {}).get("constants")})
 
     def add_samples(self, items, n=3):
         for it in items[:n]:
